@@ -624,8 +624,12 @@ type Exe struct {
 	DoneAt    int64
 	StartedAt int64
 	StartTick int
-	Ctx       context.Context
-	Cancel    func()
+	// cancellation by the harness: ticks just before / after the cancel call, and its virtual instant
+	CancelTick0, CancelTick1 int
+	CancelTime               int64
+	DoneBeforeCancel         bool
+	Ctx                      context.Context
+	Cancel                   func()
 }
 
 func (env *Env) NewExe(script []Out) *Exe {
